@@ -255,6 +255,37 @@ def run(ctx):
             ctx.ob("C05.B5.handler-performs-its-operation", "%s%s|auto_escape_stack" % (tag, v), n == 1 and len(stores) == 1,
                    "%s: %d stack operations, %d writes of state.auto_escape" % (v, n, len(stores)), ev.loc)
 
+        # B5b (round 13, seed C05-13): ... on *every* path.  A handler that opens or closes a scope only under a condition
+        # ("the mode is already the requested one: nothing to save") leaves its partner without a way to know whether
+        # there is something of its own to undo: the partner then takes what an enclosing construct saved.  Every path
+        # from the arm's entry to the next instruction (exits from which the dispatch is reached again; error exits
+        # return) passes the operation - and, for the auto-escape pair, the write of the mode.
+        tg5 = arms.variant_targets(prog, ev, disp[0][0], INSTR)
+        back_to_dispatch = {b for b in ev.reachable if disp[0][0] in cfg.reach_from(ev, b)}
+        n5b = 0
+        every = [(v, [c.bb for c in arms.calls_in(ev, vregs.get(v, set())) if c.name == callee], callee.split("::")[-1])
+                 for v, wants in handler.items() for callee, _n in wants]
+        for v, op_ in (("PushAutoEscape", "alloc::vec::Vec::push"), ("PopAutoEscape", "alloc::vec::Vec::pop")):
+            reg = vregs.get(v, set())
+            every.append((v, [c.bb for c in arms.calls_in(ev, reg) if c.name == op_], "auto_escape_stack." + op_.split("::")[-1]))
+            every.append((v, [d.bb for d in flow.stores(ev) if d.bb in reg and "auto_escape" in flow._proj_names(d.place)],
+                          "write of state.auto_escape"))
+        for v, must, what in every:
+            reg = vregs.get(v, set())
+            entry = tg5.get(v)
+            if entry is None or not must or v == "PopLoopFrame":
+                continue
+            exits = {s_ for b in reg for s_ in ev.succ[b] if s_ not in reg and s_ in back_to_dispatch}
+            if not exits:
+                continue
+            n5b += 1
+            ctx.ob("C05.B5.handler-performs-its-operation-on-every-path", "%s%s|%s" % (tag, v, what),
+                   cfg.paths_must_pass(ev, entry, must, exits),
+                   "a path through the handler of %s reaches the next instruction without the %s: its partner cannot tell "
+                   "whether there is something of this construct's own to undo and takes what an enclosing construct saved"
+                   % (v, what), ev.where(entry))
+        ctx.floor("C05.B5b handler operations checked on every path" + tag, n5b, 6)
+
         # ---- B6: operands around the computed jump of a recursive loop.  PopLoopFrame returns a recursive loop
         # invocation to its call site (`pc = target` from LoopState::current_recursion_jump); whatever the code
         # generator emits at the loop end before PopLoopFrame runs for recursive invocations too, and nothing at the
